@@ -64,8 +64,9 @@ class SymDict:
     """dict from integers to item indices, as an SMT array; ABSENT marks a missing key"""
     ABSENT = -1
 
-    def __init__(self, arr=None):
+    def __init__(self, arr=None, kind=None):
         self.arr = arr if arr is not None else z3.K(z3.IntSort(), z3.IntVal(-1))
+        self.kind = kind     # 'int': keyed by integers; 'ref': keyed by item keys (strings), indexed by item number
 
 
 class Record:
@@ -329,9 +330,16 @@ class PyExec:
         elif isinstance(t, ast.Subscript) and isinstance(t.value, ast.Name) and isinstance(env.get(t.value.id), SymDict):
             d = env[t.value.id]
             keys = self._eval(t.slice, env, [], 'assign', 0)
-            if len(keys) != 1 or not isinstance(v, KeyRef):
+            if len(keys) != 1:
                 raise PyOutOfReach('dict store')
-            env[t.value.id] = SymDict(z3.Store(d.arr, as_int(keys[0][1]), v.i))
+            key = keys[0][1]
+            if isinstance(key, KeyRef):
+                # keyed by a string key: index by item number; the stored value is abstracted to "present"
+                env[t.value.id] = SymDict(z3.Store(d.arr, key.i, z3.IntVal(0) if not isinstance(v, KeyRef) else v.i), 'ref')
+            elif isinstance(v, KeyRef):
+                env[t.value.id] = SymDict(z3.Store(d.arr, as_int(key), v.i), 'int')
+            else:
+                raise PyOutOfReach('dict store of an untracked value')
         elif isinstance(t, ast.Subscript) and isinstance(t.value, ast.Name) and isinstance(env.get(t.value.id), Record):
             key = ast.literal_eval(t.slice)
             r = env[t.value.id]
@@ -423,7 +431,7 @@ class PyExec:
             for m in mods:
                 if m in e2 and isinstance(e2[m], SymDict):
                     self.fresh_n += 1
-                    e2[m] = SymDict(z3.Array('%s!%d' % (m, self.fresh_n), z3.IntSort(), z3.IntSort()))
+                    e2[m] = SymDict(z3.Array('%s!%d' % (m, self.fresh_n), z3.IntSort(), z3.IntSort()), e2[m].kind)
                 elif m in e2 and (z3.is_expr(e2[m]) or isinstance(e2[m], (int, bool))):
                     e2[m] = self.fresh(m)
             return e2
@@ -644,6 +652,13 @@ class PyExec:
         raise PyOutOfReach('operator %s' % type(op).__name__)
 
     def _cmp(self, op, a, b):
+        if isinstance(op, (ast.In, ast.NotIn)) and isinstance(b, SymDict):
+            if isinstance(a, KeyRef):
+                r = z3.BoolVal(False) if b.kind == 'int' else z3.Select(b.arr, a.i) != SymDict.ABSENT
+            else:
+                # an int is never equal to a string key
+                r = z3.BoolVal(False) if b.kind == 'ref' else z3.Select(b.arr, as_int(a)) != SymDict.ABSENT
+            return z3.Not(r) if isinstance(op, ast.NotIn) else r
         if isinstance(a, tuple) and isinstance(b, tuple) and isinstance(op, (ast.Eq, ast.NotEq)):
             cs = [self._cmp(ast.Eq(), x, y) for x, y in zip(a, b)]
             r = all(cs) if all(isinstance(c, bool) for c in cs) else z3.And([as_bool(c) for c in cs])
